@@ -475,7 +475,8 @@ LEVEL_TEXT = ('Partial. Proved on the tables regenerated from akn_text.xsl and a
               'back as the text itself, trimmed only where the stylesheet trims (C06_text_node_lossless), and is read by inline+ and to_dict as text nodes only '
               '(C06_written_text_parses_as_text); at block level, the line written for a paragraph is dispatched by hier_block_element to rule line - all '
               'keyword blocks fail on it, by a computed FIRST analysis of the regenerated grammar against the stylesheet\'s list '
-              '(C06_escaped_first_text_is_a_line). The string '
+              '(C06_escaped_first_text_is_a_line); composed: the first text of a paragraph as written is accepted by hier_block_element through rule line and '
+              'becomes a p with text children only, spelling the text (C06_written_first_text_is_paragraph). The string '
               'templates and all element templates are modelled in Gallina (Model/Unparse.v, Model/UnparseDoc.v) and tied to libxslt running the stylesheet by the xslstr and unp stages. That escaped text re-parses as the same '
               'text is decided by the oracles on the implementation: exhaustive strings of up to 3 atoms of the adversarial alphabet x 22 text positions, '
               'every keyword x 7 block positions x 6 continuations, random poisoning of generated documents, elements without syntax (no text dropped), '
